@@ -54,6 +54,9 @@ func (t *AbsCaptureTimeExtension) Unmarshal(rawData []byte) error {
 	if len(rawData) >= absCaptureTimeExtendedExtensionSize {
 		offset := int64(binary.BigEndian.Uint64(rawData[8:16])) // nolint: gosec // G115 false positive
 		t.EstimatedCaptureClockOffset = &offset
+	} else {
+		// the short form carries no offset, do not keep one from an earlier call
+		t.EstimatedCaptureClockOffset = nil
 	}
 
 	return nil
